@@ -27,6 +27,7 @@ def showKind : ErrKind → String
   | .missingRequired ns => "missingRequired " ++ hexList ns
   | .unusedLets ns => "unusedLets " ++ hexList ns
   | .dataRefNotFound k ps vs => "dataRefNotFound " ++ hexList [k] ++ " " ++ hexList ps ++ " " ++ hexList vs
+  | .loopFuncArg fn => "loopFuncArg " ++ hexList [fn]
 
 open SoyVerif.Model.CheckErr in
 def showCompile : Except CompileErr Unit → String
@@ -35,6 +36,7 @@ def showCompile : Except CompileErr Unit → String
   | .error (.reg .namespaceRequired) => "ERR reg namespaceRequired"
   | .error (.reg .bothParams) => "ERR reg bothParams"
   | .error (.reg (.duplicate n)) => "ERR reg duplicate " ++ hexList [n]
+  | .error (.reg .commandOutside) => "ERR reg commandOutside"
   | .error (.check e) => "ERR chk " ++ hexList [e.template] ++ " " ++ showKind e.kind
 
 def ops : List Op := [
